@@ -2,6 +2,7 @@ package reduce
 
 import (
 	"fmt"
+	"math"
 	"strconv"
 
 	"github.com/grindlemire/go-lucene/internal/lex"
@@ -508,7 +509,7 @@ func toPositiveFloat(in string) (f float64, err error) {
 	}
 
 	pf, err := strconv.ParseFloat(in, 64)
-	if err == nil && pf > 0 {
+	if err == nil && pf > 0 && !math.IsInf(pf, 0) {
 		return float64(pf), nil
 	}
 
